@@ -46,11 +46,15 @@ func init() {
 				{name: "raw", n: a, perChild: a / 16, timeout: 20 * time.Minute, env: []string{"VERIF_HOOK=chaos", "VERIF_HOOK_PROB=30", "VERIF_HOOK_MAXUS=30"}},
 				{name: "engine", n: b, perChild: b / div, race: true, timeout: 30 * time.Minute, env: []string{"VERIF_HOOK=chaos", "VERIF_HOOK_PROB=5", "VERIF_HOOK_MAXUS=10"}},
 				{name: "engine-plain", n: b, perChild: b / div, timeout: 30 * time.Minute},
+				{name: "sustained", n: b / 6, perChild: b / 6 / 12, timeout: 20 * time.Minute, env: []string{"VERIF_HOOK=chaos", "VERIF_HOOK_PROB=10", "VERIF_HOOK_MAXUS=10"}},
 			}
 		},
 		run: func(c *caseCtx) caseResult {
 			if c.mode == "raw" {
 				return c01Raw(c)
+			}
+			if c.mode == "sustained" {
+				return c01Sustained(c)
 			}
 			return c01Engine(c)
 		},
@@ -500,4 +504,124 @@ func b2i(b bool) int64 {
 		return 1
 	}
 	return 0
+}
+
+// ---- sustained: the inbox never runs dry for longer than the worker's throughput budget ----
+
+type sustRecv struct {
+	mu      sync.Mutex
+	got     []*tmsg
+	senders []*actor.PID
+	entered chan int
+	release chan struct{}
+}
+
+func (a *sustRecv) Receive(c *actor.Context) {
+	m, ok := c.Message().(*tmsg)
+	if !ok {
+		return
+	}
+	a.mu.Lock()
+	a.got = append(a.got, m)
+	a.senders = append(a.senders, c.Sender())
+	a.mu.Unlock()
+	if m.Sender == 0 {
+		a.entered <- m.Seq
+		<-a.release
+	}
+}
+
+// c01Sustained: a paced sender queues message i+1 before message i is released,
+// so every pop of one worker run finds the inbox non-empty, for more pops than
+// the throughput budget (300); two free-running senders add their own streams
+// all the while. Oracle: per sender, exactly the sent sequence, in order, once,
+// with the sender PID it was sent with.
+func c01Sustained(c *caseCtx) (res caseResult) {
+	r := c.rng
+	wd := watchdog(c.tier)
+	e, err := actor.NewEngine(actor.NewEngineConfig())
+	if err != nil {
+		res.inconclusive("engine: %v", err)
+		return
+	}
+	n := 320 + r.Intn(600)
+	free := r.Intn(3)
+	size := pick(r, 1, 8, 1024)
+	rc := &sustRecv{entered: make(chan int, 4), release: make(chan struct{})}
+	pid := e.Spawn(func() actor.Receiver { return rc }, "c01", actor.WithID("sust"), actor.WithInboxSize(size))
+	res.Desc = fmt.Sprintf("sustained paced=%d free-senders=%d inbox=%d", n, free, size)
+	spid := []*actor.PID{actor.NewPID("local", "s/0"), nil, actor.NewPID("local", "s/2")}
+	var stop int32
+	var wg sync.WaitGroup
+	freeSent := make([]int, 3)
+	for g := 1; g <= free; g++ {
+		g := g
+		wg.Add(1)
+		go func() {
+			defer wg.Done()
+			for k := 0; atomic.LoadInt32(&stop) == 0 && k < 200000; k++ {
+				e.SendWithSender(pid, &tmsg{Sender: g, Seq: k}, spid[g])
+				freeSent[g] = k + 1
+				if k%64 == 0 {
+					time.Sleep(50 * time.Microsecond)
+				}
+			}
+		}()
+	}
+	e.SendWithSender(pid, &tmsg{Sender: 0, Seq: 0}, spid[0])
+	for i := 1; i <= n; i++ {
+		select {
+		case <-rc.entered:
+		case <-time.After(wd):
+			atomic.StoreInt32(&stop, 1)
+			res.inconclusive("paced message %d was not delivered within the watchdog (%s)", i-1, res.Desc)
+			return
+		}
+		if i < n {
+			e.SendWithSender(pid, &tmsg{Sender: 0, Seq: i}, spid[0])
+		}
+		rc.release <- struct{}{}
+	}
+	atomic.StoreInt32(&stop, 1)
+	wg.Wait()
+	total := n + freeSent[1] + freeSent[2]
+	count := func() int { rc.mu.Lock(); defer rc.mu.Unlock(); return len(rc.got) }
+	if fin, _ := settle(wd, 10*time.Second, func() bool { return count() >= total }, func() int64 { return int64(count()) }); !fin {
+		// decide on state: a sentinel behind everything
+		fin := &tmsg{Sender: 0, Seq: n}
+		e.SendWithSender(pid, fin, spid[0])
+		select {
+		case <-rc.entered:
+			rc.release <- struct{}{}
+			res.violate("%d of %d messages delivered although a message sent after all of them has been delivered (%s)", count()-1, total, res.Desc)
+		case <-time.After(wd):
+			res.inconclusive("only %d of %d messages delivered within the watchdog (%s)", count(), total, res.Desc)
+		}
+		return
+	}
+	rc.mu.Lock()
+	next := make([]int, 3)
+	for i, m := range rc.got {
+		if m.Seq != next[m.Sender] {
+			res.violate("sender %d: message %d delivered where %d was due (out of order, lost or duplicated) (%s)", m.Sender, m.Seq, next[m.Sender], res.Desc)
+			break
+		}
+		next[m.Sender]++
+		if !samePID(rc.senders[i], spid[m.Sender]) {
+			res.violate("sender %d message %d delivered with sender %v, sent with %v", m.Sender, m.Seq, rc.senders[i], spid[m.Sender])
+			break
+		}
+	}
+	if len(rc.got) != total && res.Verdict != vViolated {
+		res.violate("%d messages delivered, %d sent (%s)", len(rc.got), total, res.Desc)
+	}
+	rc.mu.Unlock()
+	res.count("sustained_pops", int64(n))
+	res.count("deliveries", int64(total))
+	res.Sig = sigHash("c01sust", n/40, free, size)
+	if c.n < 1 || res.Verdict == vViolated {
+		res.Sample = map[string]any{"scenario": res.Desc}
+	}
+	<-e.Poison(pid).Done()
+	return res
 }
